@@ -1,4 +1,5 @@
 use super::{dep_graph::DependencyGraph, gc::perform_gc_after_recheck};
+use itertools::Itertools;
 use rayon::prelude::*;
 use samlang_ast::source::Module;
 use samlang_checker::{
@@ -34,6 +35,7 @@ impl ServerState {
       let mut error_set = ErrorSet::new();
       let parsed_modules = string_sources
         .iter()
+        .sorted_by_key(|(mod_ref, _)| **mod_ref)
         .map(|(mod_ref, text)| {
           (
             *mod_ref,
